@@ -1,7 +1,7 @@
 CONSTANTS Feat = {0, 1, 2, 4, 8}  VersNr = 9  CompId = 617  MaxOwed = 2  MaxT = 50000000  MaxLevel = 4
 CONSTANT RxAlphabet <- MCRx
 SPECIFICATION Spec
-INVARIANTS TypeOK NeverAnswerRejects UnknownGetsUnknownRsp VersionOnce Satisfiable
+INVARIANTS TypeOK NeverAnswerRejects UnknownGetsUnknownRsp MalformedGetsUnknownRsp VersionOnce Satisfiable
 PROPERTIES TimeoutOnlyWhenPending
 CONSTRAINT Bound
 CHECK_DEADLOCK FALSE
